@@ -309,6 +309,17 @@ def run(spec, ctx):
             for rel in rels:
                 for style in ("RELATIVE", "ROOT", "FLAT"):
                     check_case(ctx, impl.fresh(doc), mq, rr.top(mq), rel, [rr.top(a) for a in rel], style, "directed")
+        # member names that begin or end with a blank character beyond ASCII (legal name characters; only the four ASCII blanks
+        # are insignificant in a query), next to the twin a trimmed reading would select; relative queries given as text in
+        # every spelling: bracketed, dotted, and the bare name the documentation's examples use
+        for nm in ("a\u00a0", "\u2003k", "\u3000", "x\u0085", "\u00a0a\u00a0", "\u2028b", "c\u2029", "\u1680d\u205f", "e\u200a"):
+            twin = nm.strip() or "s"
+            doc = {nm: {"v": 1, nm: [1, 2], twin: "inner-twin"}, twin: {"v": "twin", nm: "t"}, "arr": [{nm: 5, twin: 6}]}
+            for rel_ast, texts in ((N(nm), ["$['%s']" % nm, "$." + nm, nm, " " + nm + " ", "\t" + nm + "\n"]), (N(nm, "v"), ["$." + nm + ".v", nm + ".v", nm + "['v']"]), (N(nm, nm), ["$." + nm + "." + nm, nm + "." + nm]), (N("arr", 0, nm), ["arr[0]." + nm, "$.arr[0]." + nm])):
+                for t in texts:
+                    for style in ("RELATIVE", "ROOT", "FLAT"):
+                        check_case(ctx, impl.fresh(doc), ["q", "$", []], "$", [rel_ast], [t], style, "directed")
+                        ctx.count("relative_queries_with_names_ending_in_non_ascii_blanks")
     for _ in range(max(20, spec["n"] // 20)):
         if not interleaved_selects(ctx, r):
             break
